@@ -34,6 +34,17 @@ Theorem c18_monitor : forall fwd prefix i ops,
 Proof. exact run_mon_C18. Qed.
 Print Assumptions c18_monitor.
 
+(* the sniffing rewind buffer as the auto server builds it: protocol detection first (any
+   fragmentation of the first bytes, any Pending results), then any op sequence through the
+   rewound stream: exactly the client's bytes from the very first one *)
+Theorem c18_sniffed_rewind : forall i fwd ops v p i' n,
+  Forall chunk_pos (i_rscript i) -> i_written i = [] -> sniff i = SDone v p i' n ->
+  let '(rs, a') := run fwd (mkAst (Some p) i') ops in
+  mon_C18 [] (i_stream i) ops rs (written_of a') = true.
+Proof. exact sniff_run_mon_C18. Qed.
+Print Assumptions c18_sniffed_rewind.
+
+
 (* TokioIo buffer bookkeeping, the arithmetic both unsafe blocks rely on *)
 Theorem c18_buffer : forall b a,
   (length (b_filled b) <= b_cap b)%nat -> (length (b_filled b) <= b_init b)%nat ->
